@@ -34,5 +34,7 @@ Lossless == back # "nothing" => back = v
 NeverUnloadable == back # "error"
 KnownRules == \A k \in DOMAIN Schema : Schema[k].skip \in {"never", "empty", "none", "zero", "one", "true"}
 \* the contract in one line: what is omitted is what an absent key loads as
-Contract == \A k \in DOMAIN Schema : Schema[k].skip = "never" \/ Schema[k].skip = Schema[k].load
+\* (a rule whose name the extractor does not know is judged by the round trips of the real code alone)
+Contract == \A k \in DOMAIN Schema : Schema[k].skip \in {"never", "empty", "none", "zero", "one", "true"}
+                                         => (Schema[k].skip = "never" \/ Schema[k].skip = Schema[k].load)
 =============================================================================
